@@ -429,7 +429,7 @@ func c13ManyReentrant(n, k, mode int) (key, detail string) {
 		stopped := map[[12]byte]int{}
 		msgs := map[[12]byte]int{}
 		var a *stun.Agent
-		id := func(i int) (t [12]byte) { t[0], t[1], t[11] = byte(i), byte(i>>8), 0x5a; return }
+		id := func(i int) (t [12]byte) { t[0], t[1], t[2], t[11] = byte(i), byte(i>>8), byte(i>>16), 0x5a; return }
 		newID := [12]byte{0xAA, 0xBB, 0xCC}
 		first := true
 		nested := "not-called"
@@ -580,7 +580,7 @@ func c13Many(n, k int) (key, detail string) {
 				other++
 			}
 		})
-		id := func(i int) (t [12]byte) { t[0], t[1], t[11] = byte(i), byte(i>>8), 0x5a; return }
+		id := func(i int) (t [12]byte) { t[0], t[1], t[2], t[11] = byte(i), byte(i>>8), byte(i>>16), 0x5a; return }
 		for i := 0; i < n; i++ {
 			d := agentTime(3) // not before the collect time (== is not before)
 			if i < k {
@@ -589,6 +589,20 @@ func c13Many(n, k int) (key, detail string) {
 			if err := a.Start(id(i), d); err != nil {
 				key, detail = "many/start", fmt.Sprintf("Start #%d of %d: %v", i, n, err)
 				return
+			}
+		}
+		// registering emits nothing and un-registers nothing, however many there are and wherever their deadlines lie
+		// relative to any clock the agent was never given
+		if len(timeouts)+len(closed)+other != 0 {
+			key, detail = "many/start-emits-events", fmt.Sprintf("after %d Start calls and nothing else the handler has seen %d timeout, %d closed and %d other events", n, len(timeouts), len(closed), other)
+			return
+		}
+		if n > 0 {
+			for _, i := range []int{0, n / 2, n - 1} {
+				if err := a.Start(id(i), agentTime(4)); !errors.Is(err, stun.ErrTransactionExists) {
+					key, detail = "many/start", fmt.Sprintf("%d transactions registered; Start of #%d again = %v, want ErrTransactionExists", n, i, err)
+					return
+				}
 			}
 		}
 		if err := a.Collect(agentTime(3)); err != nil {
@@ -784,6 +798,7 @@ func init() {
 				manyN = append(manyN, n)
 			}
 			manyN = append(manyN, 1023, 1024, 1025, 1100, 2047, 2048, 2049, 3000) // tables a map would be resized / rebuilt at
+			manyN = append(manyN, 4095, 4096, 4097, 16383, 16384, 16385, 32768, 32769, 65535, 65536, 65537, 100000)
 			for _, n := range manyN {
 				if !c.Mine(int64(n)) {
 					continue
